@@ -543,3 +543,19 @@ Definition store (s : sstate) (p : pt) : result sstate :=
   end.
 
 Definition empty_s (be : backend) : sstate := mkS [] be.
+
+(* ------------------------------------------------------------------------------------------------------------ *)
+(* histories: two PulseStorage instances (own temporary storages) over one backend; a failed store changes nothing *)
+Record hstate := mkH { t0 : list (string * pt); t1 : list (string * pt); hbe : backend }.
+Definition hsel (h : hstate) (w : nat) : sstate := mkS (if Nat.eqb w 0 then t0 h else t1 h) (hbe h).
+Definition hupd (h : hstate) (w : nat) (s : sstate) : hstate :=
+  if Nat.eqb w 0 then mkH (s_temp s) (t1 h) (s_be s) else mkH (t0 h) (s_temp s) (s_be s).
+Definition hstore (h : hstate) (w : nat) (p : pt) : result hstate := do s' <- store (hsel h w) p; Ok (hupd h w s').
+Definition hstep (h : hstate) (op : nat * pt) : hstate * result unit :=
+  match hstore h (fst op) (snd op) with Ok h' => (h', Ok tt) | Err e => (h, Err e) end.
+Fixpoint hrun (h : hstate) (ops : list (nat * pt)) : hstate * list (result unit) :=
+  match ops with
+  | [] => (h, [])
+  | op :: r => let (h1, o) := hstep h op in let (h2, os) := hrun h1 r in (h2, o :: os)
+  end.
+Definition empty_h (be : backend) : hstate := mkH [] [] be.
